@@ -338,6 +338,21 @@ func (ex *Explorer) intrinsic(caller *frame, name string, args []value) (value, 
 		return symIte(ex, c, args[0], args[1]), true
 	case "vUnsupported":
 		unsupported("harness: %s", args[0].(string))
+	case "vBytes":
+		// vBytes(name, maxLen): an abstract []byte of symbolic length in [0,maxLen]
+		nm := args[0].(string)
+		v := ex.declare(nm+"_len", symv{k: kInt, bk: types.Int})
+		ex.assertTerm(fmt.Sprintf("(and (>= %s 0) (<= %s %d))", v.e, v.e, args[1].(int)))
+		ex.sliceN++
+		return symSlice{ex: ex, base: ex.sliceN, off: 0, ln: v, capv: v}, true
+	case "vSliceOffset":
+		// vSliceOffset(base, chunk): offset of chunk inside base
+		b, ok1 := args[0].(symSlice)
+		c, ok2 := args[1].(symSlice)
+		if !ok1 || !ok2 || b.base != c.base {
+			panic(pathAbort{"harness", "vSliceOffset: not sub-slices of one abstract slice"})
+		}
+		return binop(token.SUB, nil, c.off, b.off), true
 	case "vNoSample":
 		// the native behaviour on this path depends on Go's random map order:
 		// do not use it for translator validation
